@@ -123,7 +123,7 @@ lean/                        lake project: libs Amqp, Theorems, Driver; lean_exe
   Amqp/*.lean                hand-written executable models (import nothing but core Lean)
   Amqp/Gen/*.lean            GENERATED from /repo on every run (committed for the pinned tree)
   Theorems/Cxx.lean          property theorems;  Theorems/Lemmas/*.lean helper lemmas
-  Driver/*.lean              line protocol: first word selects the model (S K W R F V M H Z Y C E L N P Q X T)
+  Driver/*.lean              line protocol: first word selects the model (S K W R F V M H Z Y C E L N P Q X T G D)
 tools/check.py               the check (steps 1–5), evidence, replays, known findings
 tools/props.py               registry: per property the theorems, harness modules, generated files, claim text
 tools/gen_manifest.py        MANIFEST.json from the registry;  tools/gen_design.py  this file
@@ -132,8 +132,9 @@ tools/baseline.sh            the repository's own 389-test baseline (guard off)
 tools/run_all.sh             every claimed check, one line each
 harness/                     Rust crate `vharness <module> --tier --seed --report [--replay f]`
   src/peer.rs                scripted AMQP peer over an in-memory stream, paused tokio clock
-  src/<module>.rs            codec specenc frame session sessionwire credit recvcredit reasm ids settle
-                             connlife life limits failprop hostile cancel sasl txn delivery (+ e2e, spinprobe, common)
+  src/<module>.rs            codec specenc typed frame session sessionwire held credit recvcredit reasm ids settle
+                             connlife life limits failprop hostile cancel sasl pipeline txn delivery (+ e2e, spinprobe, common)
+  src/gen_typed.rs           GENERATED from /repo on every run: generators and field accessors of every composite
 corpus/<id>/*.json           minimised past failures and fixed defects; run first, deterministically
 seeded/<id>/                 seeded changes kept from the campaign (§9): patch.diff, demo, meta.json
 replays/  evidence/          written by the checks (replays are not committed)
@@ -162,10 +163,33 @@ for the value the source has now — a reordering flips the Boolean and the proo
 
 *Theorems* (`lean/Theorems/Cxx.lean`) state each property at full strength over all inputs /
 histories, by induction with an invariant, by refinement to a simple spec, or by case analysis
-over generated tables. Helper lemmas live in `Theorems/Lemmas`. 260+ registered theorems; the
+over generated tables. Helper lemmas live in `Theorems/Lemmas`. 280+ registered theorems; the
 largest developments are the codec round trip (1200 lines of lemmas), the specification
 encodings (C05, 950 lines), session flow control (C07), settlement (C02) and the transaction
 invariant (C18).
+
+*The typed layer* (`Amqp/Typed.lean`, `Theorems/Typed.lean`, `Theorems/Lemmas/Typed.lean`; added in
+the second session). The composites of `fe2o3-amqp-types` are not written by hand in Lean: the
+translator emits their declarations (`Gen/Schemas.lean`), a hand-written table says what each declared
+Rust type is on the wire (`tyOf`, `defaultOf` — a type the table does not know makes
+`env_elaborates` fail), and a *typed value* is a tree of composites over untyped leaves (`TV`). The
+model has the derive macro's encoder with its null-buffering field loop (`encTV` / `encFields` /
+`serField`), the value tree (`toTree`, what `to_value` yields), the way back (`fromTree`, the typed
+visitors: descriptor by code or name, missing and null fields as `None` / default, an empty
+`multiple` array as `None`, a single symbol as a one-element array) and `decodeTyped` = value
+decoding followed by `fromTree`. Proved for *every* environment of schemas satisfying `EnvOk` and
+instantiated with the source's (`env_ok`, by `decide +kernel`): the encoder writes exactly the
+encoding of the tree (`typed_encoding_is_tree_encoding`; the loop equals "drop the trailing nulls",
+`serSlots_eq`), decode ∘ encode is the identity for every combination of present / absent / default
+fields, nested (`typed_roundtrip`), every composite-level variant a peer may choose is read back
+(`typed_tree_variants_read_back`, combined with the byte-level variants in
+`typed_variants_accepted`), size = length, bytes = tree (`typed_size_eq_length`,
+`typed_via_tree`), and the declarations equal the table of the standard written by hand in
+`Theorems/Typed.lean` (`schemas_match_spec`). One lesson recorded for later sessions: a theorem that
+mentions `decode bs` under a `match` makes the kernel try to evaluate the decoder's recursion budget
+(hundreds of seconds, then "deep recursion"); `decodeTyped` therefore applies a helper
+(`readTyped`) to `decode bs`, and `decide +kernel` is used for the closed obligations over the
+environment (`decide` alone ran out of memory).
 
 *Driver* (`lean/Driver`) parses one line, runs the model, prints one canonical line. Errors are a
 small enum, maps are printed in wire order, byte strings in hex; nothing that came out of a hash
@@ -180,6 +204,7 @@ Generated on every run (a `(changed)` file triggers a Lean rebuild):
 | `Codes.lean` | `serde_amqp/src/format_code.rs`, `format.rs`, `ser.rs`, `de.rs` | format codes (enum discriminants and `TryFrom<u8>` arms, proved equal), offsets, width thresholds, `MAX_ARRAY_COUNT`, `MAX_NESTING_DEPTH` |
 | `SessionKernels`, `CreditKernels`, `RecvCreditKernels`, `SettleKernels`, `LimitsKernels`, `FrameKernels`, `FrameHeaderKernels`, `LinkSplitKernels`, `CancelKernels`, `SessLifeKernels`, `TxnKernels`, `SaslKernels` | the named functions of `session/mod.rs`, `link/state.rs`, `link/receiver_link.rs`, `link/sender_link.rs`, `link/receiver.rs`, `frames/amqp.rs`, `frames/sasl.rs`, `connection/*.rs`, `transaction/*.rs`, `acceptor/sasl_acceptor.rs` | every assignment, `let`, `if` / `while` condition and selected call argument as a Lean definition over the places it reads (wrapping / saturating / checked arithmetic of the declared width, `Duration` in µs, byte-string equality); and the rank of the first (or `last:`) occurrence of named calls and token sequences in the body |
 | `Fsm.lean` | `fe2o3-amqp-types/src/states.rs`, `connection/mod.rs`, `session/mod.rs`, `link/*.rs`, `connection/engine.rs`, `session/engine.rs` | the state enums; for each `match self.local_state` a total table state → next state / illegal (nested Boolean matches become parameters); which arm each state takes in the engines; `matches!` predicates |
+| `Schemas.lean` (+ `harness/src/gen_typed.rs`) | every `struct` of `fe2o3-amqp-types/src` with `#[amqp_contract(..)]` and a `SerializeComposite` / `DeserializeComposite` derive | descriptor name and code (computed as the derive macro computes them), encoding, and the fields in declaration order with wire name, declared type, `default` / `multiple`; the same walk writes the harness' generator and field accessor of every list-encoded composite, so that the model's schema and the harness' view of a value follow the working tree together |
 | `SaslTables.lean`, `TxnTables.lean` | `fe2o3-amqp-types/src/sasl`, `acceptor/connection.rs`, `connection/builder.rs`, `sasl_profile/mod.rs`, `transaction/coordinator.rs`, `transaction/session.rs` | `SaslCode` with wire values; per outcome code and per frame kind what the listener's and the client's loops do; what the coordinator does with each value of `fail`; what commit / rollback do with an unknown id |
 
 The translator is deliberately narrow: it understands literals, places, arithmetic, comparisons,
@@ -208,6 +233,17 @@ input. Every random choice derives from one PRNG state; failing cases are shrunk
 debugging over the event list) and kept as corpus files; corpus cases run first. Findings carry a
 *key* naming the failing input class; `known_findings.txt` is matched by key, so a different
 violation of the same property is still reported.
+
+Modules added in the second session, each written after a seeded change had slipped through (§9):
+`typed` (every declared composite, generated accessors, the typed model), `held` (2..5 links on a
+session whose peer keeps its window at 0..2 frames: sends, close / detach / drop, new attaches,
+flows with drain / echo; wire oracle for C13 / C11 / C08 / C07 / C01 and the order of frames
+compared with `Amqp.DetachHold`), `pipeline` (the listener across the SASL→AMQP switch under every
+cut of a pipelining client; a recorded SCRAM exchange replayed on a second connection), and in the
+existing modules: streams that report `Interrupted` at any read call, bodies beyond 64 KiB,
+`LazyValue` on every entry point and 600000 levels of nesting decoded in a child process (a stack
+overflow cannot be caught, the exit status is the verdict), `try_consume`, a stream whose shutdown
+fails when the idle time-out fires, and a burst of flows against one-slot queues.
 
 """
 
@@ -246,6 +282,18 @@ right; the machinery was corrected, nothing was added to the known findings, no 
   compared the wire exactly although a dropped undischarged transaction is rolled back once more.
 * C19: PBKDF2 with an iteration count of 0 is treated as a primitive (recorded, not judged).
 * C01: a frame may be as large as the *receiving* side announced, not the smaller of both.
+* C05 / typed (second session): the typed variant runs re-encode a value's maps with the reference
+  encoder, which may choose a zero-width element constructor for an array — the recorded exception of
+  the untyped decoder. A refusal whose choices contain such a constructor is now filed under that
+  known key instead of `typed-variant-not-accepted`.
+* C13 / held (second session): the first comparison with `Amqp.DetachHold` sent the window-opening
+  flow and let the client start its teardown in the same instant; the order of the two is a race of
+  the scenario, not of the code. The peer now lets the flow take effect before the teardown starts.
+* C08 / held: a drain request to a link the script had already told to leave (its detach still held
+  back) is not owed an answer; only links the script had not yet left are judged.
+* C03 / codec (second session): bodies of 64 KiB and more were first mixed into the random lengths;
+  the model's lines grew to hundreds of kilobytes and the quick tier to minutes. They are now a
+  small deterministic block judged on the implementation only.
 
 ## 11. Trusted base
 
@@ -268,7 +316,7 @@ right; the machinery was corrected, nothing was added to the known findings, no 
 ## 12. Hooks and commits made to `/repo`
 
 Hooks are behind `--cfg fe2o3_amqp_verif` (module `fe2o3_amqp::verif`: `SessionProbe`,
-`sender_credit`, `split_transfer`, `sender_unsettled_tags` / `receiver_unsettled_tags`, two
+`sender_credit` with `try_consume`, `split_transfer`, `sender_unsettled_tags` / `receiver_unsettled_tags`, two
 scheduling points); they add code only, are listed in `MANIFEST.hooks`, and with the guard off the
 389-test baseline passes (`tools/baseline.sh`, run after every commit to `/repo`). Every repair is
 one unguarded commit whose message starts with `fix:` and touches only what the defect requires;
@@ -281,9 +329,19 @@ they are listed in §8 with the property whose check found them.
   futures after k polls, a 4-thread runtime for C01) and labelled as measured, not proved. Two of
   the defects found this way (the engine wait cycle 0f7cff3, the unsettled-entry race 4ebf411) are
   of exactly this kind: no theorem about the logic could have shown them.
-* Typed composites (the derive macros of `serde_amqp_derive`) have no Lean model; C03–C05 and C20
-  prove the untyped `Value` codec and cover performatives, delivery states and message sections
-  by differential and variant runs only.
+* The typed layer models the 32 list-encoded composites and the unions built from them. Messages
+  (sections, body kinds: hand-written `Serialize` / `Deserialize`), the map-encoded and `basic`
+  composites (message sections, `amqp-value`, `data`, `amqp-sequence`), `SaslMechanisms` and the
+  management / CBS / filter crates have no Lean model; messages are covered by the end-to-end runs
+  (C01, C10, C16) only. `decodeTyped` is *defined* as value decoding followed by the tree-level
+  reading; where the implementation's typed decoder is more lenient than that (it ignores a list's
+  size field, reads a composite cut short as if its remaining fields were absent, leaves fields
+  beyond the declared ones unread) the two are compared only where both accept, and the counts of
+  "only the implementation accepts" / "only the model accepts" are in the evidence. The leaf types'
+  own decoders (enumerations over symbols) are modelled as their wire type.
+* The tables `tyOf` / `defaultOf` (what a declared Rust type is on the wire) are hand-written; the
+  harness compares every default the model uses with `<T as Default>::default()` of the
+  implementation on every run (`typed-schema`).
 * Arrays whose elements are null, lists, maps, arrays or described values do not round-trip in
   the implementation (known findings C03 / C20); they are outside the well-formedness predicate
   of the codec theorems, stated as an explicit decidable hypothesis.
@@ -345,6 +403,9 @@ def section8():
     out += ["", "### Recorded (known findings)\n",
             "Printed as `KNOWN-FINDING` on every run that reproduces them; any other violation of the same property is still a `VIOLATION`.\n",
             "| property | key | what fails, and why it was not repaired |", "|---|---|---|"]
+    why_key = {
+        "from-value:described-composite-refused": "the value deserializer (value/de.rs) has no described-type support at all: composites go through deserialize_struct -> deserialize_seq, which wants a list, and the unions (delivery states, performatives) peek at a descriptor the value deserializer cannot show; a repair is a new accessor type, not a small patch",
+    }
     why = {
         "C03": "the array encoder writes compound / null elements without the shared constructor; a repair changes the wire format of the serializer in several places and is not small",
         "C20": "same root as C03",
@@ -354,7 +415,7 @@ def section8():
         "C16": "needs either a queue in the link or the cut moved into the session; the common case is repaired (8e61c7a)",
     }
     for p, k, w in known:
-        out.append(f"| {p} | `{k}` | {w} — *{why.get(p, '')}* |")
+        out.append(f"| {p} | `{k}` | {w} — *{why_key.get(k, why.get(p, ''))}* |")
     out.append("")
     return "\n".join(out)
 
